@@ -312,7 +312,7 @@ def run(ctx):
         ctx.stats.merge(r)
     cl = ctx.stats.classes
     tot = max(1, cl["projection"])
-    ctx.floor("projection patterns on disconnected graphs (share)", round(cl["disconnected-graph"] / tot, 3), 0.05)
+    ctx.floor("projection patterns on disconnected graphs", cl["disconnected-graph"], 1000)
     ctx.floor("projection patterns on 1xN / Nx1 grids", cl["single-row-or-column-grid"], 1000)
     for f in FORMS:
         ctx.floor("e2e form " + f, cl["e2e-form:" + f], 40)
